@@ -324,13 +324,23 @@ def _memo_rule(ctx: Ctx, rs: RuleSet):
   g = ctx.cfg(f)
   ok = False
   for n in g.nodes():
-    if g.kind[n] == 'if' and 'self._memo' in unparse(g.stmt[n].test) and (
-        f'id({val})' in unparse(g.stmt[n].test)):
-      body = g.stmt[n].body
-      if len(body) == 1 and isinstance(body[0], ast.Return) and (
-          f'self._memo[id({val})]' in unparse(body[0])) and '_ref(' in unparse(
-              body[0]):
-        ok = True
+    if g.kind[n] != 'if':
+      continue
+    # the test may look the entry up first: `hit = self._memo.get(id(value))`
+    tt = unparse(roles.deref_deep(f, g.stmt[n].test))
+    if 'self._memo' in tt and f'id({val})' in tt:
+      st_ = g.stmt[n]
+      neg = isinstance(st_.test, ast.Compare) and isinstance(
+          st_.test.ops[0], ast.Is) and 'None' in unparse(
+              st_.test.comparators[0])
+      body = st_.orelse if neg and st_.orelse else st_.body
+      if neg and not st_.orelse:
+        continue
+      if len(body) == 1 and isinstance(body[0], ast.Return):
+        rt = unparse(roles.deref_deep(f, body[0].value))
+        if '_ref(' in rt and (f'self._memo[id({val})]' in rt or
+                              f'self._memo.get(id({val})' in rt):
+          ok = True
   rs.check(ok, rule, f'{f.qualname}:_memo:hit',
            'a memo hit returns _ref(self._memo[id(value)])', ctx.loc(f, f.node))
   # deserialization shares references: _deserialize_ref caches by key
@@ -340,8 +350,17 @@ def _memo_rule(ctx: Ctx, rs: RuleSet):
       isinstance(t, ast.Subscript) and
       unparse(t.value).endswith('_deserialized_objects')
       for t in g.stmt[n].targets)]
+  def _test_text(gg, n):
+    # the test with its names read as the definition reaching it
+    t = gg.stmt[n].test
+    parts = [unparse(t)]
+    for x in ast.walk(t):
+      if isinstance(x, ast.Name):
+        parts.append(unparse(roles.value_at(gg, n, x)[0]))
+    return ' '.join(parts)
+
   hits = [n for n in g.nodes() if g.kind[n] == 'if' and
-          '_deserialized_objects' in unparse(g.stmt[n].test)]
+          '_deserialized_objects' in _test_text(g, n)]
   rs.check(bool(stores) and bool(hits), rule, f'{dr.qualname}',
            'each referenced object is deserialized once and cached by key '
            '(sharing is reproduced)', ctx.loc(dr, dr.node))
@@ -380,6 +399,13 @@ def _loud_rules(ctx: Ctx, rs: RuleSet):
                 t.comparators[0].value is None):
       left = t.left.value if isinstance(t.left, ast.NamedExpr) else (
           roles.deref(f, t.left))
+      if isinstance(left, ast.Call) and isinstance(
+          left.func, ast.Attribute) and left.func.attr == 'get' and (
+              '_serialization_constants' in unparse(left.func.value)) and (
+                  len(left.args) == 1 or (len(left.args) == 2 and isinstance(
+                      left.args[1], ast.Constant) and
+                                          left.args[1].value is None)):
+        return isinstance(t.ops[0], ast.Is)   # the lookup finds nothing
       if isinstance(left, ast.Call):
         h = ctx.p.funcs.get(ctx.p.resolve(left.func, f) or '')
         if h is not None and not h.is_lambda and (
